@@ -34,9 +34,13 @@ package dns
 //@   ensures mono: ret1 == nil ==> offset <= ret0 && ret0 <= len(msg)
 //@   ensures rng: ret1 == nil && offset <= len(msg) ==> ret0 <= len(msg)
 //@   loop 1 invariant old(offset) <= offset && offset <= len(msg) && 0 <= i
+//@   ensures octets: ret1 == nil ==> (forall k in 0..ret0-offset :: msg[offset+k] == uval(s, upos(s, 0, k))) [C01]
+//@   loop 1 invariant unitpos: i == upos(s, 0, offset - old(offset)) [C01]
+//@   loop 1 invariant octets: forall k in 0..offset-old(offset) :: msg[old(offset)+k] == uval(s, upos(s, 0, k)) [C01]
 //@   writes msg
 //@ func packStringOctet [C01 C08 C16]
 //@   requires 0 <= off
+//@   ensures octets: ret1 == nil ==> (forall k in 0..ret0-off :: msg[off+k] == uval(s, upos(s, 0, k))) [C01]
 //@   ensures mono: ret1 == nil ==> off <= ret0
 //@   ensures rng: ret1 == nil && off <= len(msg) ==> ret0 <= len(msg)
 //@   writes msg
